@@ -141,3 +141,21 @@ it_fns!(E16, ItE16, rt_mk_it_e16, |v: i64| E16(v, !v));
 /// values written by C, read back through the Rust API
 #[no_mangle] pub extern "C" fn rt_read_opt_u64(o: &COption<u64>) -> i64 { match o { COption::None => -1, COption::Some(v) => *v as i64 } }
 #[no_mangle] pub extern "C" fn rt_read_res_u64_u8(o: &CResult<u64, u8>) -> i64 { match o { CResult::Ok(v) => *v as i64, CResult::Err(e) => -(*e as i64) - 1 } }
+
+// ---- the reverse direction: callbacks and iterators BUILT BY C (through the published {context, func} / {iter, func} layouts), used by Rust
+macro_rules! rev_fns { ($t:ty, $feed:ident, $adv:ident, $conv:expr, $val:expr) => {
+    /// feed `n` items into a callback that C built: returns the number of items offered (FeedCallback::feed_into)
+    #[no_mangle] pub extern "C" fn $feed(cb: OpaqueCallback<'static, $t>, items: *const i64, n: usize) -> usize {
+        use cglue::callback::FeedCallback;
+        let v: Vec<$t> = unsafe { std::slice::from_raw_parts(items, n) }.iter().map(|x| ($conv)(*x)).collect();
+        v.into_iter().feed_into(cb)
+    }
+    /// one Iterator::next on an iterator that C built: 1 and the item, or 0
+    #[no_mangle] pub extern "C" fn $adv(it: &mut CIterator<'static, $t>, out: *mut i64) -> i32 {
+        match it.next() { Some(v) => { unsafe { *out = ($val)(&v); } 1 } None => 0 }
+    }
+} }
+rev_fns!(u8, rt_feed_u8, rt_adv_u8, |v: i64| v as u8, |x: &u8| *x as i64);
+rev_fns!(u64, rt_feed_u64, rt_adv_u64, |v: i64| v as u64, |x: &u64| *x as i64);
+rev_fns!(E3, rt_feed_e3, rt_adv_e3, |v: i64| E3([v as u8, (v >> 8) as u8, (v >> 16) as u8]), |x: &E3| x.0[0] as i64 | (x.0[1] as i64) << 8 | (x.0[2] as i64) << 16);
+rev_fns!(E16, rt_feed_e16, rt_adv_e16, |v: i64| E16(v, !v), |x: &E16| if x.1 == !x.0 { x.0 } else { -777 });
